@@ -26,8 +26,14 @@ STORES = {"cache": "local", "remote": "generic"}
 # --------------------------------------------------------------------------------------
 # executing operation-level cases on the real code
 # --------------------------------------------------------------------------------------
-def _his(w: World, ids, name="md5"):
-    return [w.uni.hash_info(x, name) for x in ids]
+def _his(w: World, ids, name="md5", named=False):
+    his = [w.uni.hash_info(x, name) for x in ids]
+    if named:
+        # the caller's ids carry display names (what dvc passes: obj_name is for messages, it identifies nothing)
+        from dvc_data.hashfile.hash_info import HashInfo
+
+        his = [HashInfo(h.name, h.value, obj_name=f"data/some dir/{x}") for h, x in zip(his, ids)]
+    return his
 
 
 def op_transfer(w: World, op: dict):
@@ -56,7 +62,7 @@ def op_transfer(w: World, op: dict):
             if op.get("via") == "index":
                 res = _index_push(w, op, src_odb, dst_odb, on_status)
             else:
-                res = transfer(src_odb, dst_odb, set(_his(w, op["req"])), shallow=op["shallow"],
+                res = transfer(src_odb, dst_odb, set(_his(w, op["req"], named=bool(op.get("named")))), shallow=op["shallow"],
                                verify=bool(op.get("verify")), dest_index=index, src_index=src_index,
                                validate_status=on_status, jobs=op.get("jobs"))
         finally:
@@ -444,14 +450,15 @@ def transfer_cases(gen: dict, rng: random.Random, quick: bool) -> list[dict]:
     for kind in ("push", "fetch"):
         lst = gen[kind]
         for c in lst:
-            first = xfer_op(c)
-            retry = xfer_op(c, F=[])
+            named = len(cases) % 4 == 1   # every fourth case asks with ids that carry display names
+            first = xfer_op(c, named=named)
+            retry = xfer_op(c, F=[], named=named)
             useed = len(cases) % 3  # vary the concrete contents, hence the code's own iteration orders
             cases.append({"init": c["init"], "ops": [first, retry], "kind": kind, "useed": useed})
             nmax = len(c["req"]) + 2
             ks = range(nmax) if (not quick or rng.random() < 0.34) else []
             for k in ks:
-                cases.append({"init": c["init"], "ops": [xfer_op(c, abort=k), retry], "kind": kind + "-abort",
+                cases.append({"init": c["init"], "ops": [xfer_op(c, abort=k, named=named), retry], "kind": kind + "-abort",
                               "useed": useed})
     return cases
 
